@@ -38,6 +38,7 @@ class Config:
     seg_dtype: str = "int64"  # dtype of the label array (napari layers use all of these)
     int_axis0: bool = False  # without segmentation: the first position axis holds Python ints
     custom_annotator: bool = False  # a user-written annotator appended to tracks.annotators
+    seg_layout: str = "C"  # C | F (Fortran order) | view (every second column of a wider array)
 
     def to_json(self):
         d = asdict(self)
@@ -119,6 +120,7 @@ def random_config(rng: random.Random, *, seg=None, ndim=None, allow3d_shape=True
         # overlap those of their neighbours
         thick=(nd == 4 and sg and rng.random() < 0.5),
         npint=rng.random() < 0.2,
+        seg_layout=rng.choice(["C", "C", "C", "F", "view"]) if sg else "C",
         int_axis0=(not sg and rng.random() < 0.25),
         rename=tuple(r for r in (("iou", "overlap"), ("area", "size"))
                      if sg and rng.random() < 0.15 and (r[0] != "iou" or "iou" in extra)),
@@ -329,12 +331,20 @@ def build_graph(cfg: Config, forest: Forest, rng: random.Random, with_ids: bool,
         comps = sorted(oracles.component_partition(forest.times, forest.edges), key=min)
         # arbitrary, non-contiguous but valid ids
         top = rng.choice([3 * len(segs) + 5, 3 * len(segs) + 5, 1200])  # also ids > 255
-        tids = rng.sample(range(1, top), len(segs))
-        lids = rng.sample(range(1, max(top, 3 * len(comps) + 5)), len(comps))
+        lo = 0 if rng.random() < 0.4 else 1  # existing ids may be 0-based
+        tids = rng.sample(range(lo, top), len(segs))
+        lids = rng.sample(range(lo, max(top, 3 * len(comps) + 5)), len(comps))
+        if lo == 0 and tids and 0 not in tids and rng.random() < 0.7:
+            tids[rng.randrange(len(tids))] = 0
+        if lo == 0 and lids and 0 not in lids and rng.random() < 0.7:
+            lids[rng.randrange(len(lids))] = 0
         tid = {n: tids[i] for i, c in enumerate(segs) for n in c}
         lid = {n: lids[i] for i, c in enumerate(comps) for n in c}
     npi = (lambda x: np.int64(x)) if cfg.npint else (lambda x: x)
-    for n, t in forest.times.items():
+    order = list(forest.times.items())
+    if cfg.seed % 5 < 2:
+        rng.shuffle(order)  # e.g. built from an unsorted detection table
+    for n, t in order:
         attrs: dict[str, Any] = {time_key: npi(t)}
         if not cfg.seg:
             pos = [round(rng.uniform(0, s - 1), 3) for s in shape]
@@ -349,7 +359,10 @@ def build_graph(cfg: Config, forest: Forest, rng: random.Random, with_ids: bool,
             attrs["track_id"] = npi(tid[n])
             attrs["lineage_id"] = npi(lid[n])
         g.add_node(n, **attrs)
-    g.add_edges_from(forest.edges)
+    es = list(forest.edges)
+    if cfg.seed % 5 < 2:
+        rng.shuffle(es)
+    g.add_edges_from(es)
     return g
 
 
@@ -370,6 +383,12 @@ def build_tracks(cfg: Config):
                            p_empty=cfg.p_empty)
     seg = make_segmentation(rng, forest, cfg.frame_shape(), thick=cfg.thick,
                             dtype=np.dtype(cfg.seg_dtype)) if cfg.seg else None
+    if seg is not None and cfg.seg_layout == "F":
+        seg = np.asfortranarray(seg)
+    elif seg is not None and cfg.seg_layout == "view":
+        wide = np.zeros((*seg.shape[:-1], seg.shape[-1] * 2), dtype=seg.dtype)
+        wide[..., ::2] = seg
+        seg = wide[..., ::2]  # a channel / crop of a larger array: not contiguous
     scale = cfg.scale_list()
     axes = ["z", "y", "x"] if cfg.ndim == 4 else ["y", "x"]
     build = cfg.build
@@ -485,6 +504,13 @@ def build_tracks(cfg: Config):
         tracks.features["ok"] = Feature(feature_type="node", value_type="bool",
                                         num_values=1, display_name="ok",
                                         required=False, default_value=None)
+        tracks.features["drift"] = Feature(feature_type="node", value_type="float",
+                                           num_values=2, display_name="drift",
+                                           value_names=("drift_y", "drift_x"),  # a tuple
+                                           required=False, default_value=None)
+        for n in tracks.graph.nodes:
+            if rng.random() < 0.5:
+                tracks.graph.nodes[n]["drift"] = [round(rng.random(), 2), round(rng.random(), 2)]
         for n in tracks.graph.nodes:
             if rng.random() < 0.7:
                 tracks.graph.nodes[n]["tag"] = rng.choice(["a", "bb", ""])
@@ -495,7 +521,7 @@ def build_tracks(cfg: Config):
                 tracks.graph.nodes[n]["score"] = rng.choice([0.0, round(rng.random(), 3)])
         for e in tracks.graph.edges:
             if rng.random() < 0.8:
-                tracks.graph.edges[e]["weight"] = round(rng.random(), 3)
+                tracks.graph.edges[e]["weight"] = rng.choice([0.0, 0, round(rng.random(), 3)])
     return tracks, forest, rng
 
 
